@@ -119,7 +119,7 @@ class Sched:
 
     def finish(self):
         """let every thread run to its end (used after a failure, to not leak blocked threads)"""
-        for _ in range(100000):
+        for _ in range(1000):
             live = [w for w in self.workers if not w.done]
             if not live:
                 return True
@@ -234,14 +234,23 @@ class ShimEvent:
         return self.flag
 
     def wait(self, timeout=None):
+        """virtual clock: a wait WITH a timeout may return (False) at any scheduling point although the event
+        is not set - the scheduler treats the thread as always enabled; a wait without timeout returns only
+        once the event is set"""
         s = SCHED
+        if s.me() is None:
+            return self.flag
+        timed = timeout is not None
         if s.line_mode:
             if not self.flag:
-                s.gate("line", lambda: self.flag, "Event.wait", 0)
+                s.gate("line", (lambda: True) if timed else (lambda: self.flag), "Event.wait", 0)
         else:
-            s.gate("wait", self)
-        assert self.flag
-        return True
+            s.gate("wait_timeout" if timed else "wait", self)
+        if not timed:
+            assert self.flag
+        else:
+            s.timeouts = getattr(s, "timeouts", 0) + (not self.flag)
+        return self.flag
 
 
 class ShimThreading:
@@ -422,7 +431,7 @@ class Run:
             if sec == "reader" and not g[2]:
                 return [13]
             return [19]
-        if k == "wait":
+        if k in ("wait", "wait_timeout"):
             return [5, g[1].idx]
         if k == "edit":
             return [8, g[1]]
